@@ -33,6 +33,8 @@ type hdRecipient struct {
 	U  int      `json:"u,omitempty"`
 }
 
+const hdChatRefreshTag = 77
+
 type hdOp struct {
 	K string `json:"k"`
 	C int    `json:"c,omitempty"`
@@ -48,6 +50,8 @@ type hdOp struct {
 	Feat   []string `json:"feat,omitempty"`
 	Tok    int      `json:"tok,omitempty"` // internal: 0 valid, 1 random too short, 2 wrong token, 3 token of other random
 	Id     *hdIdRef `json:"id,omitempty"`
+	V2     *hdV2Tok `json:"v2,omitempty"` // protocol 2.0 hello with this token (Ht = "")
+	Late   bool     `json:"late,omitempty"` // helloabort: the connection goes away after the session was entered into the backend's list
 
 	// join
 	R     int    `json:"r,omitempty"`  // room number, 0 = leave
@@ -378,6 +382,13 @@ func (r *hdRun) exec(o *hdOp) string {
 			hello["resumeid"] = id
 			term = fmt.Sprintf("OHello %d (HResume %s)", o.C, t)
 		default:
+			if o.V2 != nil {
+				token, signer := s.hdV2Token(o.B, o.U, o.V2)
+				hello["version"] = "2.0"
+				hello["auth"] = map[string]interface{}{"url": s.backendUrl(o.B) + "/ocs/v2.php/apps/spreed/api/v1/signaling/backend", "params": map[string]interface{}{"token": token}}
+				term = fmt.Sprintf("OHello %d (HV2 %d %d %s)", o.C, o.B, o.U, o.V2.coq(signer))
+				break
+			}
 			hello["auth"] = map[string]interface{}{"url": s.backendUrl(o.B) + "/ocs/v2.php/apps/spreed/api/v1/signaling/backend", "params": map[string]interface{}{"u": hdUser(o.U), "reject": o.Reject}}
 			term = fmt.Sprintf("OHello %d (HV1 %d %d %s)", o.C, o.B, o.U, coqBool(o.Reject))
 		}
@@ -385,6 +396,114 @@ func (r *hdRun) exec(o *hdOp) string {
 		data, _ := json.Marshal(msg)
 		s.sendSync(c, data)
 		return term
+	case "helloabort":
+		// The connection is closed while its hello is being processed. Only the forms the model knows are
+		// forced; everything else is sent as an ordinary hello.
+		if c == nil {
+			return ""
+		}
+		plain := *o
+		plain.K = "hello"
+		if r.pub[o.C] != "" {
+			return r.exec(&plain)
+		}
+		idle := func() {
+			deadline := time.Now().Add(2 * time.Second)
+			n := 0
+			for time.Now().Before(deadline) && n < 3 {
+				if s.idleDump() {
+					n++
+				} else {
+					n = 0
+				}
+				time.Sleep(300 * time.Microsecond)
+			}
+		}
+		dropHeld := func() {
+			s.backend.mu.Lock()
+			var keep []hdBackendReq
+			for _, q := range s.backend.reqs {
+				if q.Type != "auth-held" {
+					keep = append(keep, q)
+				}
+			}
+			s.backend.reqs = keep
+			s.backend.mu.Unlock()
+		}
+		switch {
+		case o.Ht == "resume":
+			id, t := r.resolve(o.Id)
+			if !strings.HasPrefix(t, "(IdPriv") {
+				return r.exec(&plain)
+			}
+			data, _ := json.Marshal(map[string]interface{}{"id": "h", "type": "hello", "hello": map[string]interface{}{"version": "1.0", "resumeid": id}})
+			// the hub looks the session up under its lock: hold it, let the hello run into it, cut the connection
+			s.hub.mu.Lock()
+			err := c.send(data)
+			idle()
+			c.conn.Close()
+			<-c.gone
+			idle()
+			s.hub.mu.Unlock()
+			if err != nil {
+				return ""
+			}
+			return fmt.Sprintf("OHelloAborted %d (HResume %s) false", o.C, t)
+		case o.Ht == "" && o.V2 == nil && !o.Reject && o.B >= 0 && o.B < s.nb:
+			late := o.Late && s.backendHasRoom(o.B)
+			data, _ := json.Marshal(map[string]interface{}{"id": "h", "type": "hello", "hello": map[string]interface{}{"version": "1.0",
+				"auth": map[string]interface{}{"url": s.backendUrl(o.B) + "/ocs/v2.php/apps/spreed/api/v1/signaling/backend", "params": map[string]interface{}{"u": hdUser(o.U), "reject": false}}}})
+			gate := make(chan struct{})
+			s.backend.mu.Lock()
+			s.backend.gate = gate
+			s.backend.mu.Unlock()
+			release := func() {
+				s.backend.mu.Lock()
+				s.backend.gate = nil
+				s.backend.mu.Unlock()
+				close(gate)
+			}
+			if err := c.send(data); err != nil {
+				release()
+				return ""
+			}
+			held := false
+			for deadline := time.Now().Add(2 * time.Second); time.Now().Before(deadline) && !held; time.Sleep(200 * time.Microsecond) {
+				s.backend.mu.Lock()
+				for _, q := range s.backend.reqs {
+					if q.Type == "auth-held" {
+						held = true
+					}
+				}
+				s.backend.mu.Unlock()
+			}
+			if !held {
+				// the request never reached the backend (refused before): an ordinary hello then
+				release()
+				dropHeld()
+				s.sendSync(c, []byte(`{"id":"x","type":"bye","bye":{}}`))
+				return fmt.Sprintf("OHello %d (HV1 %d %d false)", o.C, o.B, o.U)
+			}
+			if late {
+				// the answer arrives while the connection is still there; the session is entered into the backend's
+				// list and then waits for the hub's lock; meanwhile the connection goes away
+				s.hub.mu.Lock()
+				release()
+				idle()
+				c.conn.Close()
+				<-c.gone
+				idle()
+				s.hub.mu.Unlock()
+			} else {
+				c.conn.Close()
+				<-c.gone
+				idle()
+				release()
+			}
+			dropHeld()
+			return fmt.Sprintf("OHelloAborted %d (HV1 %d %d false) %s", o.C, o.B, o.U, coqBool(late))
+		}
+		return r.exec(&plain)
 	case "join":
 		if c == nil {
 			return ""
@@ -420,6 +539,11 @@ func (r *hdRun) exec(o *hdOp) string {
 		}
 		rec, rterm := r.recipient(o.To)
 		payload := map[string]interface{}{"tag": o.Tag}
+		if o.Tag == hdChatRefreshTag {
+			// a chat-refresh notice (Coq: CHAT_REFRESH_TAG): repeated ones are merged while the receiver is disconnected
+			payload["type"] = "chat"
+			payload["chat"] = map[string]interface{}{"refresh": true}
+		}
 		inner := map[string]interface{}{"recipient": rec, "data": payload}
 		if o.FS > 0 {
 			inner["sender"] = map[string]interface{}{"type": "session", "sessionid": r.pub[o.FS], "userid": "forged"}
@@ -455,6 +579,13 @@ func (r *hdRun) exec(o *hdOp) string {
 			var terms []string
 			for _, u := range o.Users {
 				id, t := r.resolve(u.Id)
+				if u.Id != nil && !o.RawRS && s.foreignRoomSession(id, o.B) {
+					// the string is, right now, the room-session id of a session of another backend: that is the
+					// region of the known finding C03/room-session-map/global-api (witnessed by its own directed
+					// case); generated cases stay outside it
+					r.notes = append(r.notes, "api user replaced: foreign room session id")
+					id, t = "no-such-room-session", "(IdOther 30)"
+				}
 				e := map[string]interface{}{"sessionId": id, "inCall": u.InCall}
 				if u.RS > 0 {
 					urs := u.RS
@@ -1032,9 +1163,13 @@ func (r *hdRun) digestTerm() string {
 		}
 		kinds[k] += n
 	}
-	return fmt.Sprintf("(mkdigest %s %s %s %s %s %s %s %s %s %d %d %d %d %d %d %d)", coqList(sess), coqList(rooms), coqList(rs1), coqList(rs2), coqList(vt),
+	var counts []string
+	for _, n := range d.Counts {
+		counts = append(counts, fmt.Sprintf("%d", n))
+	}
+	return fmt.Sprintf("(mkdigest %s %s %s %s %s %s %s %s %s %d %d %d %d %d %d %d %s)", coqList(sess), coqList(rooms), coqList(rs1), coqList(rs2), coqList(vt),
 		nums(d.Expired), nums(d.Anonymous), nums(d.Dialout), nums(d.Clients), d.ExpectHello,
-		kinds["backend"], kinds["room"], kinds["user"], kinds["session"], len(d.McuOpen), d.McuPending)
+		kinds["backend"], kinds["room"], kinds["user"], kinds["session"], len(d.McuOpen), d.McuPending, coqList(counts))
 }
 
 // runCase executes a case and returns the Coq term of its trace.
